@@ -728,7 +728,17 @@ def w5(proj, rep, funcs):
             t = ast.unparse(arg).replace(' ', '')
             gram_ok = isinstance(arg, ast.BinOp) and isinstance(arg.op, ast.MatMult) and ast.unparse(arg.right) == M and 'conj' in ast.unparse(arg.left) \
                 and 'transpose' in ast.unparse(arg.left) and ast.unparse(arg.left).startswith(M + '.')
-            if gram_ok:
+            floor = None
+            for k2, nm, v in defs:
+                if isinstance(v, ast.Call) and ast.unparse(v.func).split('.')[-1] in ('maximum', 'clip', 'clamp', 'fmax') and k2 > (fact_pos or -1) and k2 < idx:
+                    consts = [a for a in v.args if isinstance(a, ast.Constant) and isinstance(a.value, (int, float)) and a.value > 0]
+                    if consts and any(isinstance(a, ast.Name) and a.id == nm for a in v.args):
+                        floor = (nm, v)
+            if gram_ok and floor is not None:
+                rep.violation('W5', construct, f'`{floor[0]} = {ast.unparse(floor[1])}` puts an absolute floor on the spectrum of the Gram matrix before it is '
+                              f'inverted: for small {M} (singular values below the floor) `{M} @ {F}` is no longer an isometry and the map is no longer invariant '
+                              f'under rescaling of theta', m, st)
+            elif gram_ok:
                 rep.ok('W5', construct, f'`{ast.unparse(fact)[:70]}` factorises exactly {M}^dagger {M}', m, st)
             elif isinstance(arg, ast.BinOp) and isinstance(arg.op, (ast.Add, ast.Sub)):
                 rep.violation('W5', construct, f'the factorised matrix is `{t[:90]}`: a term is added to the Gram matrix {M}^dagger {M}, so `{M} @ {F}` is no longer an '
@@ -737,4 +747,78 @@ def w5(proj, rep, funcs):
                 rep.undecided('W5', construct, f'factorised matrix `{t[:60]}` is not recognisably {M}^dagger {M}', m, st)
                 n -= 1
     rep.count('W5.orthonormalisations', n)
+    return n
+
+
+# ------------------------------------------------------------------------------------------------ W6
+RULE_W6 = ('W6: a batched einsum with literal leg lists is its unbatched sibling with ONE extra leg: the batch leg is prepended to every operand and to the '
+           'output, all other legs are identical (up to renaming). A differing permutation of the remaining output legs returns a different tensor for '
+           'the batch than for each sample.')
+
+
+def _legs(call):
+    """[(operand text, legs)...], output legs  for einsum(A, [..], B, [..], [..]) with literal integer leg lists"""
+    args = call.args
+    ops = []
+    i = 0
+    while i + 1 < len(args) and isinstance(args[i + 1], ast.List):
+        try:
+            legs = [e.value for e in args[i + 1].elts]
+        except AttributeError:
+            return None
+        ops.append((ast.unparse(args[i]), legs))
+        i += 2
+    if i < len(args) and isinstance(args[i], ast.List):
+        try:
+            out = [e.value for e in args[i].elts]
+        except AttributeError:
+            return None
+        return ops, out
+    return None
+
+
+def w6(proj, rep, funcs):
+    rep.rule('W6', RULE_W6)
+    n = 0
+    for q in funcs:
+        fi = proj.func(q)
+        m = fi.module
+        rep.touch(m)
+        eins = [c for c in ast.walk(fi.node) if isinstance(c, ast.Call) and ast.unparse(c.func).endswith('einsum') and _legs(c)]
+        by_text = {}
+        for c in eins:
+            ops, out = _legs(c)
+            by_text.setdefault(tuple(o for o, _ in ops), []).append((c, ops, out))
+        for key, lst in by_text.items():
+            if len(lst) != 2:
+                continue
+            (c1, o1, out1), (c2, o2, out2) = sorted(lst, key=lambda t: len(t[2]))
+            if len(out2) != len(out1) + 1:
+                continue
+            n += 1
+            b = out2[0]
+            okb = all(legs and legs[0] == b for _, legs in o2) and b not in [x for _, legs in o1 for x in legs]
+            if not okb:
+                rep.undecided('W6', q, f'batch leg of `{ast.unparse(c2)[:70]}` not identified', m, c2)
+                n -= 1
+                continue
+            # rename legs of the batched call (without b) onto the unbatched one operand by operand
+            ren = {}
+            good = True
+            for (_, l1), (_, l2) in zip(o1, o2):
+                l2 = l2[1:]
+                if len(l1) != len(l2):
+                    good = False
+                    break
+                for a, bb in zip(l1, l2):
+                    if ren.setdefault(bb, a) != a:
+                        good = False
+            if not good:
+                rep.violation('W6', q, f'`{ast.unparse(c2)[:90]}`: operand legs differ from the unbatched sibling `{ast.unparse(c1)[:70]}` by more than the batch leg', m, c2)
+            elif [ren.get(x) for x in out2[1:]] == out1:
+                rep.ok('W6', q, 'batched einsum = unbatched einsum + leading batch leg', m, c2)
+            else:
+                rep.violation('W6', q, f'`{ast.unparse(c2)[:100]}`: after removing the batch leg the output legs are {[ren.get(x) for x in out2[1:]]}, the unbatched '
+                              f'sibling returns {out1}: the batched result is a transposed tensor (for the Choi operator: its partial transpose, not PSD)', m, c2)
+    rep.count('W6.batched_einsum_pairs', n)
     return n
